@@ -11,6 +11,7 @@ import (
 	"math"
 	"math/bits"
 	"math/rand"
+	"regexp"
 	"sort"
 	"strconv"
 	"strings"
@@ -221,8 +222,11 @@ func (c scase) useBase() {
 
 func at(ns int64) time.Time { return base.Add(time.Duration(ns)) }
 
+// magVal: the float32 a numerator of a request line stands for (n / 2^magShift), magnitudes and Fixed shapes alike.
+func magVal(n int64) float32 { return float32(math.Ldexp(float64(n), -magShift)) }
+
 func pbSeg(s sg) *traits.ElectricMode_Segment {
-	out := &traits.ElectricMode_Segment{Magnitude: float32(math.Ldexp(float64(s.mag), -magShift))}
+	out := &traits.ElectricMode_Segment{Magnitude: magVal(s.mag)}
 	if !s.inf {
 		out.Length = durationpb.New(time.Duration(s.len))
 		if s.len == math.MaxInt64 {
@@ -472,7 +476,7 @@ func (c scase) runCode() (o outcome) {
 			s, shape, has := parseShaped(c.L)
 			g := guard([]sg{s})
 			if has {
-				g.full[0].Shape = &traits.ElectricMode_Segment_Fixed{Fixed: float32(shape)}
+				g.full[0].Shape = &traits.ElectricMode_Segment_Fixed{Fixed: magVal(shape)}
 				g.clone[0] = proto.Clone(g.full[0]).(*traits.ElectricMode_Segment)
 			}
 			o.before, o.after, o.ok = segmentpb.Cut(d, g.full[0])
@@ -890,9 +894,9 @@ func (c scase) monitor(m *lib.Monitor, o outcome) {
 		// the shape: every part stands for the same consumption as the segment it was cut from (the `before` part
 		// of a length-less segment included: it lost the segment's Fixed shape before fix: of round 5,
 		// signature C18/Cut/shape-lost-on-unbounded-before)
-		want := float32(seg.mag)
+		want := magVal(seg.mag)
 		if has {
-			want = float32(shape)
+			want = magVal(shape)
 		}
 		d := mustInt(c.D)
 		for i, part := range []*traits.ElectricMode_Segment{o.before, o.after} {
@@ -930,6 +934,7 @@ func (c scase) monitor(m *lib.Monitor, o outcome) {
 				pts = append(pts, x)
 			}
 		}
+		pts = append(append(pts, realBps(optList(o.before))...), realBps(optList(o.after))...)
 		for _, t := range samplePoints(pts) {
 			want, _, _ := stepAt(l, t)
 			if t < d {
@@ -963,6 +968,7 @@ func (c scase) monitor(m *lib.Monitor, o outcome) {
 				pts = append(pts, x)
 			}
 		}
+		pts = append(pts, realBps(o.segs)...)
 		for _, t := range samplePoints(pts) {
 			var want int64
 			if td, ok := subOK(t, d); ok && t >= 0 {
@@ -981,6 +987,7 @@ func (c scase) monitor(m *lib.Monitor, o outcome) {
 		for _, l := range ls {
 			pts = append(pts, breakpoints(l)...)
 		}
+		pts = append(pts, realBps(o.segs)...)
 		for _, t := range samplePoints(pts) {
 			var want int64
 			for _, l := range ls {
@@ -1058,10 +1065,7 @@ func (c scase) monitor(m *lib.Monitor, o outcome) {
 		if x < lo {
 			lo = x - 2
 		}
-		for y := lo; y <= h+1; y++ {
-			if y == h+1 {
-				y = h + 1000
-			}
+		for _, y := range walk(lo, h, append(append(append(offsetAll(breakpoints(mode.segs), st), x), realModeBps(ref, o.mBefore)...), realModeBps(ref, o.mAfter)...)...) {
 			want, _, _ := stepAt(mode.segs, y-st)
 			if y < x {
 				if got := realModeMag(ref, o.mBefore, y); got != want {
@@ -1088,10 +1092,7 @@ func (c scase) monitor(m *lib.Monitor, o outcome) {
 			st = mode.start
 		}
 		h := st + horizon(mode.segs) + abs(d) + 3
-		for y := st - abs(d) - 2; y <= h+1; y++ {
-			if y == h+1 {
-				y = h + 1000
-			}
+		for _, y := range walk(st-abs(d)-2, h, append(append(offsetAll(breakpoints(mode.segs), st), offsetAll(breakpoints(mode.segs), st+d)...), realModeBps(0, o.mode)...)...) {
 			want, _, _ := stepAt(mode.segs, y-d-st)
 			if !mode.hasStart && y < 0 {
 				want = 0 // segments cannot move before the (implicit) start
@@ -1208,10 +1209,15 @@ func (c scase) monitor(m *lib.Monitor, o outcome) {
 			return
 		}
 		h := latest + horizon(all...) + 3
-		for y := earliest - 2; y <= h+1; y++ {
-			if y == h+1 {
-				y = h + 1000
+		var bps []int64
+		for _, mo := range ms {
+			st := latest
+			if mo.hasStart {
+				st = mo.start
 			}
+			bps = append(bps, offsetAll(breakpoints(mo.segs), st)...)
+		}
+		for _, y := range walk(earliest-2, h, append(bps, realModeBps(0, o.mode)...)...) {
 			var want int64
 			for _, mo := range ms {
 				st := latest // a mode without start time starts at the most recent start time
@@ -1232,6 +1238,83 @@ func (c scase) monitor(m *lib.Monitor, o outcome) {
 			}
 		}
 	}
+}
+
+// walk: the instants a sampling loop visits from lo to h and one far instant after h: every integer ns when the
+// range is short; otherwise the ends and the instants around the given points (the breakpoints of the functions
+// compared: between two neighbouring breakpoints step functions are constant, so nothing is lost).
+func walk(lo, h int64, pts ...int64) []int64 {
+	if h < lo {
+		return []int64{h + 1000}
+	}
+	if h-lo <= 1<<12 {
+		out := make([]int64, 0, h-lo+2)
+		for y := lo; y <= h; y++ {
+			out = append(out, y)
+		}
+		return append(out, h+1000)
+	}
+	set := map[int64]bool{}
+	for _, p := range append([]int64{lo + 2, h - 2}, pts...) {
+		for dx := int64(-2); dx <= 2; dx++ {
+			if y := p + dx; y >= lo && y <= h {
+				set[y] = true
+			}
+		}
+	}
+	out := make([]int64, 0, len(set)+1)
+	for y := range set {
+		out = append(out, y)
+	}
+	sort.Slice(out, func(i, j int) bool { return out[i] < out[j] })
+	return append(out, h+1000)
+}
+
+// realBps: the breakpoints of a REAL result list (where its segments start, and its end).  The oracle side of a
+// comparison changes only at the breakpoints of the arguments; the result may have been cut in other places, so
+// its own breakpoints are sampled too (PropsSampling: agreement at the breakpoints of both sides is agreement
+// everywhere).
+func realBps(l []*traits.ElectricMode_Segment) []int64 {
+	pts := []int64{0}
+	var cur int64
+	for _, s := range l {
+		if s == nil || s.Length == nil {
+			break
+		}
+		next, ok := addOK(cur, int64(s.Length.AsDuration()))
+		if !ok {
+			break
+		}
+		cur = next
+		pts = append(pts, cur)
+	}
+	return pts
+}
+
+// realModeBps: the breakpoints of a real result mode as absolute instants (a mode without start time starts at ref).
+func realModeBps(ref int64, m *traits.ElectricMode) []int64 {
+	if m == nil {
+		return nil
+	}
+	st := ref
+	if m.StartTime != nil {
+		st = int64(m.StartTime.AsTime().Sub(base))
+	}
+	var out []int64
+	for _, b := range realBps(m.Segments) {
+		if y, ok := addOK(st, b); ok {
+			out = append(out, y)
+		}
+	}
+	return out
+}
+
+func offsetAll(pts []int64, by int64) []int64 {
+	out := make([]int64, len(pts))
+	for i, p := range pts {
+		out[i] = p + by
+	}
+	return out
 }
 
 // maxDomain: whether l is well formed (only its last segment may be length-less) and the offset from which the
@@ -1540,6 +1623,40 @@ func randSegCase(r *rand.Rand) scase {
 	if strings.HasPrefix(c.Op, "m") && c.Op != "max" && c.Op != "magat" && c.Op != "maxafter" {
 		c.B = randEpoch(r)
 	}
+	if r.Intn(5) == 0 {
+		c = scaleTime(c, timeUnits[r.Intn(len(timeUnits))], int64(r.Intn(4))%3-1)
+	}
+	return c
+}
+
+// timeUnits: the factors of the time-scaled cases.  The lengths and instants of the plain random cases are a
+// few ns, so every Duration / Timestamp proto in them has seconds = 0 (or the epoch's seconds) and tiny nanos;
+// real lengths are whole seconds.  A scaled case is the same case with every length, start time and d / t
+// multiplied by the unit (and d / t moved by -1, 0 or 1 ns): whole seconds (nanos = 0), half seconds (seconds
+// and nanos both in play, carries across the second), minutes, milliseconds.
+var timeUnits = []int64{1_000_000_000, 1_000_000_000, 500_000_000, 60_000_000_000, 1_000_000}
+
+var modeStart = regexp.MustCompile(`(^|;)(-?\d+)@`)
+
+// scaleTime multiplies every time in the case by u and moves d by jitter.
+func scaleTime(c scase, u, jitter int64) scase {
+	c.L = segTok.ReplaceAllStringFunc(c.L, func(tok string) string {
+		p := strings.Split(tok, "/")
+		if p[1] != "i" {
+			p[1] = strconv.FormatInt(mustInt(p[1])*u, 10)
+		}
+		return strings.Join(p, "/")
+	})
+	c.L = modeStart.ReplaceAllStringFunc(c.L, func(tok string) string {
+		sep := ""
+		if strings.HasPrefix(tok, ";") {
+			sep, tok = ";", tok[1:]
+		}
+		return sep + strconv.FormatInt(mustInt(strings.TrimSuffix(tok, "@"))*u, 10) + "@"
+	})
+	if c.D != "" {
+		c.D = strconv.FormatInt(mustInt(c.D)*u+jitter, 10)
+	}
 	return c
 }
 
@@ -1844,6 +1961,7 @@ func runSeg(f lib.Flags, res *lib.Result, drv *lib.Driver) {
 	k1 := res.Tie("segments-random", "K1",
 		"random lists of 0-6 segments (magnitudes -3..4 with extra zeros, lengths 0..5, a final length-less segment in 1/3 of the lists, rarely one in the middle), "+
 			"1-4 lists per Sum (rarely 0), d/t at a breakpoint or one ns either side (negated half the time for Shift), Cut also on segments carrying the shape oneof (unset or Fixed -4..4), a third of the Shift / Sum / modepb.Cut / modepb.Shift / modepb.Sum cases on segments carrying the shape oneof (and modes carrying non-timing fields, token 1..6), modes with (3/4) and without start times, 1-4 modes per modepb.Sum, model time 0 of a mode case on an ordinary instant (6/10), the zero time.Time (1/5), the Unix epoch (1/10) or an ordinary instant with denormalised start-time protos {seconds+1, nanos-1e9} (1/10); "+
+			"one case in five with every length, start time and d / t multiplied by a unit (1 s, 0.5 s, 1 min, 1 ms; d / t then moved by -1, 0 or 1 ns), so that Duration / Timestamp protos with whole seconds, with seconds and nanos, and carries across the second are in play; "+
 			"distinct = distinct request line + epoch; non-trivial = some list non-empty")
 	r := lib.NewRand(f.Seed + 18)
 	n := f.N(60000, 1500000)
@@ -1855,7 +1973,7 @@ func runSeg(f lib.Flags, res *lib.Result, drv *lib.Driver) {
 	runSegEdges(f, res, drv, mon)
 	runModeFar(f, res, drv, mon)
 	runSegFloat(f, res, drv, mon)
-	runFloatRounding(f, res, drv)
+	runFloatRounding(f, res, drv, mon)
 }
 
 // ---- float32 tier ------------------------------------------------------------------------------
@@ -1905,6 +2023,18 @@ func randFloatSgs(r *rand.Rand, family int) []sg {
 			} else {
 				mag = f32grid(float64(r.Intn(2001)-500) / 100)
 			}
+		case 2, 3: // very different scales side by side: small numbers, powers of two up to 2^20, and their neighbours
+			switch r.Intn(3) {
+			case 0:
+				mag = int64(r.Intn(17)) - 8
+			case 1:
+				mag = int64(1) << uint(r.Intn(21))
+			default:
+				mag = int64(1)<<uint(r.Intn(21)) + int64(r.Intn(7)) - 3
+			}
+			if r.Intn(3) == 0 {
+				mag = -mag
+			}
 		}
 		if r.Intn(6) == 0 {
 			mag = 0
@@ -1917,9 +2047,34 @@ func randFloatSgs(r *rand.Rand, family int) []sg {
 	return l
 }
 
+// floatShapes gives every segment token of a plain text a shape: unset, or a Fixed numerator of the family.
+func floatShapes(r *rand.Rand, fam int, s string) string {
+	return segTok.ReplaceAllStringFunc(s, func(tok string) string {
+		if r.Intn(3) == 0 {
+			return tok + "/n"
+		}
+		if strings.HasPrefix(tok, "0/") {
+			return tok + "/0"
+		}
+		v := randFloatSgs1(r, fam)
+		return tok + "/" + strconv.FormatInt(v, 10)
+	})
+}
+
+// randFloatSgs1: one magnitude numerator of the family.
+func randFloatSgs1(r *rand.Rand, fam int) int64 {
+	for {
+		if l := randFloatSgs(r, fam); len(l) > 0 {
+			return l[0].mag
+		}
+	}
+}
+
 func runSegFloat(f lib.Flags, res *lib.Result, drv *lib.Driver, mon *lib.Monitor) {
 	k := res.Tie("segments-float32", "K1",
-		"fractional float32 magnitudes, represented exactly by integer numerators over 2^3 (family 'eighths': k/8, |k|<=1024) or 2^40 (family 'decimals': float32(k/10), float32(k/100)); "+
+		"fractional float32 magnitudes, represented exactly by integer numerators over 2^3 (family 'eighths': k/8, |k|<=1024) or 2^40 (family 'decimals': float32(k/10), float32(k/100)), and magnitudes of very different scales side by side "+
+			"(families 'wide-integers': small integers, powers of two up to 2^20 and their neighbours; 'wide-fractions': the same numerators over 2^20, i.e. from 1e-6 to 1); "+
+			"also the shaped operations (Cut with shape, Shift, modepb.Cut, modepb.Shift) with Fixed values drawn from the same family; "+
 			"the model computes on the numerators, i.e. in exact rational arithmetic; Sum (1-3 lists), SumMagnitude, Max, Shift, MagnitudeAt. A case is compared (and monitored) only if it is float-safe: "+
 			"by an order-free criterion every partial sum of its edges is exactly representable in float32; an unsafe SumMagnitude, and an unsafe Sum whose edge times are all distinct, is compared with the model's float32 rendering (sumf/summagf) instead; the other cases are counted and MEASURED (does the real result equal the exact one; "+
 			"does Sum change when the argument lists are passed in reverse order); distinct = distinct request line; non-trivial = every compared case")
@@ -1927,14 +2082,18 @@ func runSegFloat(f lib.Flags, res *lib.Result, drv *lib.Driver, mon *lib.Monitor
 	n := f.N(20000, 300000)
 	itoa := func(x int64) string { return strconv.FormatInt(x, 10) }
 	defer func() { magShift = 0 }()
-	for fam, shift := range []int{3, 40} {
+	for fam, shift := range []int{3, 40, 0, 20} {
 		magShift = shift
 		var cases []scase
 		var lists [][][]sg
-		for i := 0; i < n/2; i++ {
+		per := n / 2
+		if fam >= 2 {
+			per = n / 4
+		}
+		for i := 0; i < per; i++ {
 			var c scase
 			var ls [][]sg
-			switch r.Intn(8) {
+			switch r.Intn(10) {
 			case 0:
 				l := randFloatSgs(r, fam)
 				ls, c = [][]sg{l}, scase{"summag", "", showSgs(l), ""}
@@ -1947,6 +2106,30 @@ func runSegFloat(f lib.Flags, res *lib.Result, drv *lib.Driver, mon *lib.Monitor
 			case 3:
 				l := randFloatSgs(r, fam)
 				ls, c = nil, scase{"magat", itoa(aroundBreakpoints(r, l)), showSgs(l), ""}
+			case 8:
+				// the shaped operations on these magnitudes, Fixed values drawn from the same family (fractional,
+				// or of a very different scale than the magnitude): shapes are only ever copied, so always exact
+				l := randFloatSgs(r, fam)
+				if len(l) > 0 && r.Intn(2) == 0 {
+					ls, c = nil, scase{"cuts", itoa(r.Int63n(7) - 1), floatShapes(r, fam, showSg(l[0])), ""}
+				} else {
+					ls, c = nil, scase{"shifts", itoa(aroundBreakpoints(r, l) * int64(1-2*r.Intn(2))), floatShapes(r, fam, showSgs(l)), ""}
+				}
+			case 9:
+				l := randFloatSgs(r, fam)
+				m := md{segs: l}
+				if r.Intn(3) != 0 {
+					m.hasStart, m.start = true, int64(r.Intn(7))-2
+				}
+				op, d := "mcuts", m.start+aroundBreakpoints(r, l)
+				if r.Intn(2) == 0 {
+					op, d = "mshifts", int64(r.Intn(9))-4
+				}
+				text := floatShapes(r, fam, showMd(m))
+				if k := r.Intn(5); k > 0 {
+					text += "@" + strconv.Itoa(k)
+				}
+				ls, c = nil, scase{op, itoa(d), text, ""}
 			default:
 				m := 1 + r.Intn(3)
 				ls = make([][]sg, m)
@@ -1967,7 +2150,7 @@ func runSegFloat(f lib.Flags, res *lib.Result, drv *lib.Driver, mon *lib.Monitor
 			k.Fail(err)
 			return
 		}
-		famName := []string{"eighths", "decimals"}[fam]
+		famName := []string{"eighths", "decimals", "wide-integers", "wide-fractions"}[fam]
 		for i, c := range cases {
 			o := c.runCode()
 			k.Count(famName + "/" + c.Op)
@@ -1979,15 +2162,20 @@ func runSegFloat(f lib.Flags, res *lib.Result, drv *lib.Driver, mon *lib.Monitor
 				c.safeMonitor(mon, o)
 				continue
 			}
-			if c.Op == "sum" {
+			switch c.Op {
+			case "sum":
 				// rounding changes magnitudes only, never the timing (C18_sum_float_timing): whatever is rounded and
-				// in whatever order, the finished segments of the result have the lengths of the exact sum's — the
-				// differences of the distinct edge times
+				// in whatever order, the finished segments of the result have the lengths of the exact sum's; and the
+				// magnitude at every instant stays within the accumulated rounding bound of the pointwise sum
+				// (C18_sum_float_error) - judged whether or not the order of equal-time edges is determined
 				mon.Eval(lines[i], true, nil)
-				mon.Count("float32/sum-timing(rounding case)")
-				if want, got := fmt.Sprint(expectedClosedLens(lists[i])), fmt.Sprint(closedLensOf(o.segs)); want != got && !strings.HasPrefix(o.text, "panic:") {
-					mon.Violate("C18/Sum/float-timing", "the breakpoints of Sum on rounding magnitudes are not those of the pointwise sum (rounding may change magnitudes only)", c, want, got+" (result "+o.text+")")
+				sumFloatClauses(mon, c, lists[i], o)
+			case "summag":
+				mon.Eval(lines[i], true, nil)
+				if o.mutated != "" {
+					mon.Violate("C18/SumMagnitude/argument-modified", "SumMagnitude modified its argument", c, "arguments unchanged", o.mutated)
 				}
+				sumMagFloatClause(mon, c, lists[i][0], o.mag, o.text)
 			}
 			if c.Op == "summag" || (c.Op == "sum" && edgeTimesDistinct(lists[i])) {
 				// rounding happens, but in an order the code fixes (list order / distinct edge times): compare
@@ -2210,11 +2398,13 @@ func randGappedLists(r *rand.Rand) [][]sg {
 	}
 }
 
-func runFloatRounding(f lib.Flags, res *lib.Result, drv *lib.Driver) {
+func runFloatRounding(f lib.Flags, res *lib.Result, drv *lib.Driver, mon *lib.Monitor) {
 	k := res.Tie("float32-rounding", "K1",
 		"the model of float32 addition (round to 24 significant bits, ties to even) against Go's: f32add on pairs of integers that are float32 values (mantissas random / all-ones / just above 2^23 / tiny, "+
 			"exponents 0..29, both signs, plus directed half-way and carry cases); SumMagnitude in float32 on lists of 2-6 such magnitudes; Sum in float32 on 1-3 lists of such magnitudes separated by idle gaps "+
 			"with all edge times distinct (so the unstable sort cannot matter): the real result must equal the model's float rendering bit for bit; counted: how many results differ from the exact sum; "+
+			"plus Sum on 2-4 ungapped lists of such magnitudes on a coarse time grid (edges share instants: compared when the edge times happen to be distinct, otherwise judged by the monitor only - "+
+			"breakpoints and the accumulated rounding bound of C18_sum_float_error - and counted as order-undetermined); every sumf/summagf case also goes through those monitor clauses; "+
 			"distinct = distinct request line; non-trivial = every case")
 	r := lib.NewRand(f.Seed + 3232323)
 	n := f.N(12000, 200000)
@@ -2250,6 +2440,9 @@ func runFloatRounding(f lib.Flags, res *lib.Result, drv *lib.Driver) {
 			exact = append(exact, "summag "+showSgs(l))
 		default:
 			ls := randGappedLists(r)
+			if r.Intn(3) == 0 {
+				ls = randSharedLists(r)
+			}
 			cases = append(cases, scase{"sumf", "", showSgLists(ls), ""})
 			exact = append(exact, "sum "+showSgLists(ls))
 		}
@@ -2288,9 +2481,18 @@ func runFloatRounding(f lib.Flags, res *lib.Result, drv *lib.Driver) {
 				s := float32(mustInt(c.D)) + float32(mustInt(c.L))
 				code = showMag(s)
 			case "summagf":
-				code = scase{"summag", "", c.L, ""}.runCode().text
+				o := scase{"summag", "", c.L, ""}.runCode()
+				code = o.text
+				mon.Eval(lines[i], true, nil)
+				if o.mutated != "" {
+					mon.Violate("C18/SumMagnitude/argument-modified", "SumMagnitude modified its argument", c, "arguments unchanged", o.mutated)
+				}
+				sumMagFloatClause(mon, c, parseSgs(c.L), o.mag, o.text)
 			case "sumf":
-				code = scase{"sum", "", c.L, ""}.runCode().text
+				o := scase{"sum", "", c.L, ""}.runCode()
+				code = o.text
+				mon.Eval(lines[i], true, nil)
+				sumFloatClauses(mon, c, parseSgLists(c.L), o)
 			}
 		})
 		if panicked {
@@ -2303,6 +2505,17 @@ func runFloatRounding(f lib.Flags, res *lib.Result, drv *lib.Driver) {
 			} else {
 				k.Count(c.Op + "/rounded (differs from the exact result)")
 			}
+		}
+		if c.Op == "sumf" && !edgeTimesDistinct(parseSgLists(c.L)) && !strings.HasPrefix(code, "panic:") {
+			// which small terms are absorbed depends on the order sort.Slice leaves equal-time edges in: the
+			// result is not a function of the model's (stable) arrangement; judged by the monitor clauses only
+			k.Count("sumf/order-undetermined (edges share instants: monitored, not compared)")
+			if model[i] == code {
+				k.Count("sumf/order-undetermined: real result equals the stable-order rendering")
+			} else {
+				k.Count("sumf/order-undetermined: real result differs from the stable-order rendering")
+			}
+			continue
 		}
 		k.Record(lines[i], true, c, model[i], code)
 	}
